@@ -1231,4 +1231,211 @@ theorem refillUnions_names (p : List (String × List String)) (ts : List TypeDef
   simp only [Function.comp]
   split <;> rfl
 
+/-! ## fields of the result are fields of the inputs, verbatim -/
+
+/-- every field of every definition of `res'` is (literally) a field of a same-named, same-kind
+    definition of `res` or of `extra` -/
+def Verb (res extra res' : List TypeDef) : Prop :=
+  ∀ r ∈ res', ∀ g ∈ r.fields, ∃ d, (d ∈ res ∨ d ∈ extra) ∧ d.name = r.name ∧ d.kind = r.kind ∧ g ∈ d.fields
+
+theorem mergeOne_verb {as bs : Schema} {res res' : List TypeDef} {vb : TypeDef}
+    (h : mergeOne E as bs res vb = .ok res') (hroot : isRootName vb.name = true → vb.kind = .object) :
+    Verb res [vb] res' := by
+  intro r hr g hg
+  rcases mergeOne_cases h with ⟨_, rfl⟩ | ⟨_, _, rfl⟩ | ⟨_, va, hl, hcase⟩
+  · exact ⟨r, Or.inl hr, rfl, rfl, hg⟩
+  · rcases List.mem_append.mp hr with hr | hr
+    · exact ⟨r, Or.inl hr, rfl, rfl, hg⟩
+    · exact ⟨r, Or.inr hr, rfl, rfl, hg⟩
+  · obtain ⟨hva, hvan⟩ := lookup_some hl
+    rcases hcase with ⟨_, rfl⟩ | ⟨d, hm, rfl⟩
+    · exact ⟨r, Or.inl hr, rfl, rfl, hg⟩
+    · rcases mem_setType hr with rfl | hr
+      · rcases mergeDef_spec hm hvan with ⟨ho, _⟩ | ⟨_, hk, hrest⟩
+        · cases ho
+        · rcases hrest with ⟨_, ho⟩ | ⟨_, ho, _⟩ | ⟨_, _, _, hrc⟩
+          · cases ho; exact ⟨vb, Or.inr (by simp), rfl, rfl, hg⟩
+          · cases ho
+          · rcases hrc with ⟨hr', d', ho, hmr⟩ | ⟨hr', d', ho, hmc⟩
+            · cases ho
+              obtain ⟨dn, dk, _, _, _, df⟩ := mergeRootObjects_spec hmr
+              obtain ⟨⟨ext, hext, hextm⟩, _, _⟩ := rootFold_spec _ _ _ df
+              have hobj := hroot hr'
+              rw [hext] at hg
+              rcases List.mem_append.mp hg with hg | hg
+              · exact ⟨vb, Or.inr (by simp), dn.symm, by rw [dk, hobj], hg⟩
+              · exact ⟨va, Or.inl hva, by rw [dn, hvan], by rw [dk, ← hk, hobj], hextm g hg⟩
+            · cases ho
+              obtain ⟨dn, dk, _, _, _, df, _⟩ := mergeCustomObjects_spec hmc
+              obtain ⟨_, _, fn⟩ := customFields_spec (notQuery_of_notRoot hr') df
+              rcases fn g hg with hg | hg
+              · exact ⟨vb, Or.inr (by simp), dn.symm, dk.symm, hg⟩
+              · exact ⟨va, Or.inl hva, by rw [dn, hvan], by rw [dk, hk], hg⟩
+      · exact ⟨r, Or.inl hr, rfl, rfl, hg⟩
+
+theorem mergeTypes_verb {as bs : Schema} : ∀ (b a r : List TypeDef),
+    mergeTypes E a b as bs = .ok r → (∀ vb ∈ b, isRootName vb.name = true → vb.kind = .object) → Verb a b r
+  | [], a, r, h, _ => by
+    simp only [mergeTypes, List.foldlM_nil] at h; cases h
+    intro r hr g hg; exact ⟨r, Or.inl hr, rfl, rfl, hg⟩
+  | vb :: b, a, r, h, hroot => by
+    obtain ⟨res1, h1, h2⟩ := foldlM_cons_ok (f := mergeOne E as bs) h
+    have S := mergeOne_verb h1 (hroot vb List.mem_cons_self)
+    have IH := mergeTypes_verb b res1 r h2 (fun x hx => hroot x (List.mem_cons_of_mem _ hx))
+    intro r' hr g hg
+    obtain ⟨d, hd, hn, hk, hgd⟩ := IH r' hr g hg
+    rcases hd with hd | hd
+    · obtain ⟨d0, hd0, hn0, hk0, hg0⟩ := S d hd g hgd
+      refine ⟨d0, ?_, hn0.trans hn, hk0.trans hk, hg0⟩
+      rcases hd0 with h' | h'
+      · exact Or.inl h'
+      · simp only [List.mem_singleton] at h'; exact Or.inr (h' ▸ List.mem_cons_self)
+    · exact ⟨d, Or.inr (List.mem_cons_of_mem _ hd), hn, hk, hgd⟩
+
+theorem foldInputs_verb : ∀ (rest : List MergeInput) (acc : List TypeDef) (accS prev : Schema) (R : List TypeDef),
+    foldInputs E acc accS prev rest = .ok R → (∀ i ∈ rest, RootsAreObjects i.schema) →
+    ∀ r ∈ R, ∀ g ∈ r.fields, ∃ d, (d ∈ acc ∨ InInputs rest d) ∧ d.name = r.name ∧ d.kind = r.kind ∧ g ∈ d.fields
+  | [], acc, _, _, R, h, _ => by
+    simp only [foldInputs] at h; cases h
+    intro r hr g hg; exact ⟨r, Or.inl hr, rfl, rfl, hg⟩
+  | i :: rest, acc, accS, prev, R, h, hroot => by
+    simp only [foldInputs, bind, Except.bind] at h
+    split at h
+    · cases h
+    · rename_i acc' hacc
+      have S := mergeTypes_verb _ _ _ hacc (fun vb hvb => hroot i List.mem_cons_self vb hvb)
+      have IH := foldInputs_verb rest acc' _ _ R h (fun j hj => hroot j (List.mem_cons_of_mem _ hj))
+      intro r hr g hg
+      obtain ⟨d, hd, hn, hk, hgd⟩ := IH r hr g hg
+      rcases hd with hd | ⟨j, hj, hdj⟩
+      · obtain ⟨d0, hd0, hn0, hk0, hg0⟩ := S d hd g hgd
+        refine ⟨d0, ?_, hn0.trans hn, hk0.trans hk, hg0⟩
+        rcases hd0 with h' | h'
+        · exact Or.inl h'
+        · exact Or.inr ⟨i, List.mem_cons_self, h'⟩
+      · exact ⟨d, Or.inr ⟨j, List.mem_cons_of_mem _ hj, hdj⟩, hn, hk, hgd⟩
+
+/-! ## a root field has one declarer -/
+
+theorem isNodeField_name {g : FieldDef} (h : isNodeField E g = true) : g.name = nodeFieldName := by
+  unfold isNodeField at h
+  simp only [show E.nodeFieldByName = true from rfl, ↓reduceIte, Bool.and_eq_true, beq_iff_eq] at h
+  exact h.1
+
+theorem root_ne_node {n : String} (h : isRootName n = true) : n ≠ nodeInterfaceName := by
+  intro he; subst he; revert h; decide
+
+/-- the type map has an object named `T` with a field named `f` -/
+def HasField (ts : List TypeDef) (T f : String) : Prop :=
+  ∃ d ∈ ts, d.name = T ∧ d.kind = .object ∧ ∃ g ∈ d.fields, g.name = f
+
+theorem hasField_of_covers {d r : TypeDef} (hc : Covers d r) (hk : d.kind = .object) {g : FieldDef}
+    (hg : g ∈ d.fields) (hb : isBuiltinName g.name = false) :
+    r.name = d.name ∧ r.kind = .object ∧ ∃ g' ∈ r.fields, g'.name = g.name := by
+  have hty := type_item_mem.mp (hc _ (type_item_mem.mpr ⟨rfl, rfl⟩))
+  have := field_item_mem.mp (hc _ (field_item_mem.mpr ⟨rfl, by rw [hk]; rfl, g, hg, hb, rfl, rfl, rfl⟩))
+  obtain ⟨_, _, g', hg', _, hn, _, _⟩ := this
+  exact ⟨hty.1, hty.2.trans hk, g', hg', hn⟩
+
+/-- one iteration: a root field of the map and the same-named field of the new definition clash,
+    unless it is the relay `node` field -/
+theorem mergeOne_clash {as bs : Schema} {res res' : List TypeDef} {vb : TypeDef}
+    (h : mergeOne E as bs res vb = .ok res') (hn : (res.map (·.name)).Nodup)
+    (hr : isRootName vb.name = true) {f : String} (hb : isBuiltinName f = false)
+    (hf : HasField res vb.name f) (hg : ∃ g ∈ vb.fields, g.name = f) : f = nodeFieldName := by
+  obtain ⟨d, hd, hdn, hdk, g0, hg0, hg0n⟩ := hf
+  have hl : lookup res vb.name = some d := hdn ▸ lookup_of_nodup hn hd
+  rcases mergeOne_cases h with ⟨hbt, _⟩ | ⟨_, hl', _⟩ | ⟨_, va, hl', hcase⟩
+  · have : isBuiltinName vb.name = false := by
+      revert hr; unfold isRootName isBuiltinName
+      intro hr
+      simp only [Bool.or_eq_true, beq_iff_eq] at hr
+      rcases hr with (h | h) | h <;> rw [h] <;> decide
+    rw [this] at hbt; cases hbt
+  · rw [hl] at hl'; cases hl'
+  · rw [hl] at hl'; cases hl'
+    have hmd : ∃ od, mergeDef E as bs d vb = .ok od := by
+      rcases hcase with ⟨hm, _⟩ | ⟨d', hm, _⟩
+      · exact ⟨_, hm⟩
+      · exact ⟨_, hm⟩
+    obtain ⟨od, hm⟩ := hmd
+    rcases mergeDef_spec hm hdn with ⟨_, hN⟩ | ⟨_, hk, hrest⟩
+    · exact absurd hN (root_ne_node hr)
+    · rcases hrest with ⟨hs, _⟩ | ⟨hu, _, _⟩ | ⟨_, _, _, hrc⟩
+      · rw [hk, hdk] at hs; cases hs
+      · rw [hk, hdk] at hu; cases hu
+      · rcases hrc with ⟨_, d', _, hmr⟩ | ⟨hr', _⟩
+        · obtain ⟨_, _, _, _, _, df⟩ := mergeRootObjects_spec hmr
+          obtain ⟨_, _, hdis⟩ := rootFold_spec _ _ _ df
+          obtain ⟨g, hg, hgn⟩ := hg
+          have := hdis g0 hg0 (by rw [hg0n]; exact hb) ⟨g, hg, hgn.trans hg0n.symm⟩
+          exact hg0n ▸ isNodeField_name this
+        · rw [hr] at hr'; cases hr'
+
+theorem hasField_keeps {res res' : List TypeDef} (hk : ∀ d ∈ res, ∃ r ∈ res', Covers d r) {T f : String}
+    (hb : isBuiltinName f = false) (h : HasField res T f) : HasField res' T f := by
+  obtain ⟨d, hd, hdn, hdk, g, hg, hgn⟩ := h
+  obtain ⟨r, hr, hc⟩ := hk d hd
+  obtain ⟨h1, h2, g', hg', h3⟩ := hasField_of_covers hc hdk hg (by rw [hgn]; exact hb)
+  exact ⟨r, hr, h1.trans hdn, h2, g', hg', h3.trans hgn⟩
+
+/-- `mergeTypes`: no root field of `a` is declared again by `b` (`node` aside) -/
+theorem mergeTypes_clash {as bs : Schema} : ∀ (b a r : List TypeDef),
+    mergeTypes E a b as bs = .ok r → (a.map (·.name)).Nodup →
+    (∀ vb ∈ b, isRootName vb.name = true → vb.kind = .object) →
+    ∀ vb ∈ b, isRootName vb.name = true → ∀ f, isBuiltinName f = false → HasField a vb.name f →
+      (∃ g ∈ vb.fields, g.name = f) → f = nodeFieldName
+  | [], _, _, _, _, _ => by simp
+  | v :: b, a, r, h, hn, hroot => by
+    obtain ⟨res1, h1, h2⟩ := foldlM_cons_ok (f := mergeOne E as bs) h
+    have S := mergeOne_spec h1 (hroot v List.mem_cons_self)
+    intro vb hvb hr f hb hf hg
+    rcases List.mem_cons.mp hvb with rfl | hvb
+    · exact mergeOne_clash h1 hn hr hb hf hg
+    · exact mergeTypes_clash b res1 r h2 (S.nodup hn) (fun x hx => hroot x (List.mem_cons_of_mem _ hx))
+        vb hvb hr f hb (hasField_keeps S.keeps hb hf) hg
+
+/-- `i` declares field `f` on a type named `T` -/
+def Declares (i : MergeInput) (T f : String) : Prop := ∃ d ∈ i.schema.types, d.name = T ∧ ∃ g ∈ d.fields, g.name = f
+
+/-- two services do not declare the same root field (the relay `node` field aside) -/
+def NoRootClash (i j : MergeInput) : Prop :=
+  ∀ T f, isRootName T = true → isBuiltinName f = false → Declares i T f → Declares j T f → f = nodeFieldName
+
+theorem foldInputs_clash : ∀ (rest : List MergeInput) (acc : List TypeDef) (accS prev : Schema) (R : List TypeDef),
+    foldInputs E acc accS prev rest = .ok R → (acc.map (·.name)).Nodup → (∀ i ∈ rest, RootsAreObjects i.schema) →
+    (∀ i ∈ rest, ∀ T f, isRootName T = true → isBuiltinName f = false → HasField acc T f → Declares i T f →
+      f = nodeFieldName) ∧ rest.Pairwise NoRootClash
+  | [], _, _, _, _, _, _, _ => by simp
+  | i :: rest, acc, accS, prev, R, h, hn, hroot => by
+    simp only [foldInputs, bind, Except.bind] at h
+    split at h
+    · cases h
+    · rename_i acc' hacc
+      have hri : ∀ vb ∈ i.schema.types, isRootName vb.name = true → vb.kind = .object :=
+        fun vb hvb => hroot i List.mem_cons_self vb hvb
+      have S := mergeTypes_spec _ _ _ hacc hri
+      obtain ⟨IHA, IHB⟩ := foldInputs_clash rest acc' _ _ R h (S.nodup hn)
+        (fun j hj => hroot j (List.mem_cons_of_mem _ hj))
+      constructor
+      · intro j hj T f hT hb hf hd
+        rcases List.mem_cons.mp hj with rfl | hj
+        · obtain ⟨d, hd, hdn, g, hg, hgn⟩ := hd
+          exact mergeTypes_clash _ _ _ hacc hn hri d hd (hdn ▸ hT) f hb (hdn ▸ hf) ⟨g, hg, hgn⟩
+        · exact IHA j hj T f hT hb (hasField_keeps S.keeps hb hf) hd
+      · rw [List.pairwise_cons]
+        refine ⟨?_, IHB⟩
+        intro j hj T f hT hb hdi hdj
+        apply IHA j hj T f hT hb _ hdj
+        obtain ⟨d, hd, hdn, g, hg, hgn⟩ := hdi
+        have hdk : d.kind = .object := hri d hd (hdn ▸ hT)
+        obtain ⟨r, hr, hc⟩ := S.adds d hd (by
+            revert hT; rw [← hdn]; unfold isRootName isBuiltinName
+            intro hr
+            simp only [Bool.or_eq_true, beq_iff_eq] at hr
+            rcases hr with (h | h) | h <;> rw [h] <;> decide)
+          (fun hN => absurd hN (root_ne_node (hdn ▸ hT)))
+        obtain ⟨h1, h2, g', hg', h3⟩ := hasField_of_covers hc hdk hg (by rw [hgn]; exact hb)
+        exact ⟨r, hr, h1.trans hdn, h2, g', hg', h3.trans hgn⟩
+
 end PebblesVerif.Merge
